@@ -601,7 +601,12 @@ def operands_recorded_as_given(ctx, rule):
     for fi in model.funcs.values():
         if fi.cls is None or fi.cls.name != 'Recipe' or fi.parent is not None:
             continue
-        calls = [c for c in ast.walk(fi.node) if isinstance(c, ast.Call) and isinstance(c.func, ast.Name) and c.func.id == 'RecipeStep']
+        recorders = _step_recorders(model)
+        if fi.name in recorders:
+            continue
+        calls = [c for c in ast.walk(fi.node) if isinstance(c, ast.Call) and
+                 ((isinstance(c.func, ast.Name) and c.func.id == 'RecipeStep') or
+                  (isinstance(c.func, ast.Attribute) and c.func.attr in recorders and isinstance(c.func.value, ast.Name) and c.func.value.id == 'self'))]
         if not calls:
             continue
         a = fi.node.args
@@ -613,7 +618,8 @@ def operands_recorded_as_given(ctx, rule):
             if isinstance(x, ast.Name) and isinstance(x.ctx, ast.Store) and x.id in text:
                 rebound.setdefault(x.id, x.lineno)
         for c in calls:
-            for arg in list(c.args[2:]) + [k.value for k in c.keywords]:
+            first = 2 if isinstance(c.func, ast.Name) else 1      # RecipeStep(self, kind, ..) / self._recorder(kind, ..)
+            for arg in list(c.args[first:]) + [k.value for k in c.keywords]:
                 inside = sorted({y.id for y in ast.walk(arg) if isinstance(y, ast.Name) and y.id in text})
                 if not inside:
                     continue
@@ -640,9 +646,13 @@ def every_declaration_is_recorded(ctx, rule):
     for fi in model.funcs.values():
         if fi.cls is None or fi.cls.name != 'Recipe' or fi.parent is not None:
             continue
+        recorders = _step_recorders(model)
+        if fi.name in recorders:
+            continue
         appends = [c for c in walk_no_nested(fi.node) if isinstance(c, ast.Call) and isinstance(c.func, ast.Attribute) and
-                   c.func.attr == 'append' and c.args and any(isinstance(y, ast.Call) and isinstance(y.func, ast.Name) and
-                                                              y.func.id == 'RecipeStep' for y in ast.walk(c.args[0]))]
+                   ((c.func.attr == 'append' and c.args and any(isinstance(y, ast.Call) and isinstance(y.func, ast.Name) and
+                                                                y.func.id == 'RecipeStep' for y in ast.walk(c.args[0]))) or
+                    (c.func.attr in recorders and isinstance(c.func.value, ast.Name) and c.func.value.id == 'self'))]
         if not appends:
             continue
         n += 1
@@ -691,3 +701,20 @@ def steps_only_appended(ctx, rule):
            fact=(f"`{unparse(where[1], 70)}`" if where else f"{len(muts)} mutation(s) of self.steps, all of them append"),
            why='the order or the positions of the steps change after they were added: the stages (index ranges into the list) '
                'and the timeframes of the queries then name other steps', key='steps mutation', nontrivial=False)
+
+
+def _step_recorders(model):
+    """Private methods of Recipe that build a RecipeStep from their parameters and append it to `self.steps` on every path
+    (a shared `_add_step(kind, frm, to, *operands)`): a call of one of them records the step."""
+    out = set()
+    for fi in model.funcs.values():
+        if fi.cls is None or fi.cls.name != 'Recipe' or fi.parent is not None or not fi.name.startswith('_') or fi.name.startswith('__'):
+            continue
+        makes = [c for c in walk_no_nested(fi.node) if isinstance(c, ast.Call) and isinstance(c.func, ast.Name) and c.func.id == 'RecipeStep']
+        appends = [c for c in walk_no_nested(fi.node) if isinstance(c, ast.Call) and isinstance(c.func, ast.Attribute) and
+                   c.func.attr == 'append' and ast.unparse(c.func.value) == 'self.steps']
+        conditional = any(isinstance(p, (ast.If, ast.For, ast.While, ast.Try)) for a_ in appends for p in _ancestors(a_, fi.node))
+        early = any(isinstance(r, ast.Return) and appends and r.lineno < min(a_.lineno for a_ in appends) for r in walk_no_nested(fi.node))
+        if makes and appends and not conditional and not early:
+            out.add(fi.name)
+    return out
